@@ -21,6 +21,7 @@ unchanged.  This module folds such edits back, on the syntax tree, so that the r
   * table-dispatch   a lookup in a literal dict keyed by constants becomes the equivalent if/elif chain.
   * merged-if        `if a: if b: BODY` -> `if a and b: BODY`.
   * discard-to-remove `s.discard(e)` -> `if e in s: s.remove(e)`.
+  * folded-condition `x = E` + `if x:` (only read of x) -> `if E:`.
   * renamed-local    a local defined exactly like a local of the pinned tree that is now missing gets its name back.
 
 Nothing here decides a property; the transformations are sound rewritings (conditions stated with each) and every node
@@ -1147,6 +1148,8 @@ class Canonicaliser:
             self.dispatch(u, u.node)
             self.aliases(u, u.node)
             self.loops(u, u.node)
+            self.fold_conditions(u, u.node)
+            self.order_compares(u, u.node)
             self.discards(u, u.node)
             self.merge_ifs(u, u.node)
         self.drop_absorbed()
@@ -1155,6 +1158,60 @@ class Canonicaliser:
         for m in P.mods.values():
             ast.fix_missing_locations(m.tree)
         return {name: m.tree for name, m in P.mods.items()}
+
+    # ---------------------------------------------------------------- operand order of comparisons
+    def order_compares(self, unit, fn):
+        """`CONST == x` -> `x == CONST` (and mirrored <, <=, >, >=); symmetric operators get one operand order."""
+        from .paths import _rank, _constant_like, _MIRROR
+        for n in ast.walk(fn):
+            if isinstance(n, ast.Compare) and len(n.ops) == 1:
+                l, op, r = n.left, n.ops[0], n.comparators[0]
+                if isinstance(op, (ast.Eq, ast.NotEq, ast.Is, ast.IsNot)):
+                    if (_rank(l), ast.unparse(l)) > (_rank(r), ast.unparse(r)):
+                        n.left, n.comparators[0] = r, l
+                elif type(op) in _MIRROR and _constant_like(l) and not _constant_like(r):
+                    n.left, n.comparators[0], n.ops[0] = r, l, _MIRROR[type(op)]()
+
+    # ---------------------------------------------------------------- single-use condition locals
+    def fold_conditions(self, unit, fn):
+        """`x = E` immediately followed by `if x:` / `if not x:` / `if x and ..:` where this is the only read of x:
+        `if E:` (E is evaluated at the same point, so this holds whatever E is)."""
+        stores = stored_names(fn)
+        loads = {}
+        for n in ast.walk(fn):
+            if isinstance(n, ast.Name) and isinstance(n.ctx, ast.Load):
+                loads[n.id] = loads.get(n.id, 0) + 1
+        me = self
+
+        def leftmost(t):
+            if isinstance(t, ast.UnaryOp) and isinstance(t.op, ast.Not):
+                return leftmost(t.operand)
+            if isinstance(t, ast.BoolOp):
+                return leftmost(t.values[0])
+            return t
+
+        def do_list(stmts):
+            out = []
+            i = 0
+            while i < len(stmts):
+                st = stmts[i]
+                if not isinstance(st, (ast.FunctionDef, ast.AsyncFunctionDef, ast.ClassDef)):
+                    for owner, f in block_lists(st):
+                        setattr(owner, f, do_list(getattr(owner, f)))
+                nxt = stmts[i + 1] if i + 1 < len(stmts) else None
+                if isinstance(st, ast.Assign) and len(st.targets) == 1 and isinstance(st.targets[0], ast.Name) and \
+                        isinstance(nxt, ast.If):
+                    x = st.targets[0].id
+                    lm = leftmost(nxt.test)
+                    if stores.get(x) == 1 and loads.get(x) == 1 and isinstance(lm, ast.Name) and lm.id == x:
+                        nxt.test = Subst({x: st.value}).visit(nxt.test)
+                        me.log.append(('folded-condition', unit.loc(st), '%s: %s' % (unit.qual, x)))
+                        i += 1
+                        continue
+                out.append(st)
+                i += 1
+            return out
+        fn.body = do_list(fn.body)
 
     # ---------------------------------------------------------------- set.discard
     def discards(self, unit, fn):
@@ -1211,7 +1268,7 @@ class Canonicaliser:
         pin = self.pinned_locals.get(unit.qual)
         if not pin:
             return
-        for _ in range(3):
+        for _ in range(10):
             cur = signatures(fn)
             missing = {p: sg for p, sg in pin.items() if p not in cur}
             if not missing:
